@@ -179,6 +179,13 @@ fn still_injections(rng: &mut Rng, out: &mut Vec<Inj>) {
         let cs = still_with(&img, interlace, z, rng, np);
         out.push(Inj { class, file: ser(&cs), frame: 0 });
     }
+    // a back-reference reaching before the start of the stream
+    {
+        let (raw, _) = scanlines(&img, interlace, &Filters::Uniform(0), rng);
+        let z = fixed_huffman_zlib_reach_back(0, raw.len().max(2), raw.len().max(2) + rng.usize(0, 40));
+        let cs = still_with(&img, interlace, z, rng, 1);
+        out.push(Inj { class: "zlib/distance-before-start", file: ser(&cs), frame: 0 });
+    }
     // too short: a valid stream that ends before the last row is complete
     let z = build_frame_stream(&img, interlace, rng, |raw, r| { let n = raw.len(); let cut = r.usize(1, (n / 2).max(1)); raw.truncate(n - cut); }, |_, _| {}, &Deflater::Level(6));
     let np = rng.usize(1, 3);
@@ -277,6 +284,27 @@ fn anim_injections(rng: &mut Rng, out: &mut Vec<Inj>) {
         }
         renumber(&mut cs);
         out.push(Inj { class: if after_idat { "fdat-without-fctl/after-idat" } else { "fdat-without-fctl/between-fdat-runs" }, file: serialize(&cs), frame: frame_of(&cs, i) + if after_idat { 0 } else { 0 } });
+    }
+    // a LATER frame whose compressed stream refers back before its own start (a corrupt stream: every frame's data sequence is a
+    // zlib stream of its own; an inflater that keeps the previous frame's output as history would decode it from those bytes)
+    for &i in &fctls {
+        let fc = &base[i].data;
+        let (fw, fh) = (u32::from_be_bytes([fc[4], fc[5], fc[6], fc[7]]), u32::from_be_bytes([fc[8], fc[9], fc[10], fc[11]]));
+        let probe = Img { color: a.color, depth: a.depth, w: fw, h: fh, pixels: vec![] };
+        // raw size of the frame's scanlines (non-interlaced: rows x (1 + row bytes); interlaced: never less than one row)
+        let total = if a.interlace { adam7_passes(&Img { pixels: vec![0; probe.row_bytes() * fh as usize], ..probe.clone() }).iter().filter(|p| p.w > 0 && p.h > 0).map(|p| p.h as usize * (1 + p.row_bytes())).sum::<usize>() } else { fh as usize * (1 + probe.row_bytes()) };
+        let z = fixed_huffman_zlib_reach_back(0, total.max(2), *rng.pick(&[1usize + total.max(2), 20.max(total + 1), 32768]));
+        let mut cs = base.clone();
+        // replace the fdAT run behind this fcTL by one fdAT chunk holding the corrupt stream
+        let mut j = i + 1;
+        while j < cs.len() && &cs[j].ty == b"fdAT" {
+            cs.remove(j);
+        }
+        let mut d = vec![0, 0, 0, 0];
+        d.extend_from_slice(&z);
+        cs.insert(i + 1, RawChunk::new(b"fdAT", d));
+        renumber(&mut cs);
+        out.push(Inj { class: "zlib/distance-before-start/later-frame", file: serialize(&cs), frame: frame_of(&cs, i + 1) });
     }
     // fdAT shorter than 4 bytes
     let fdats: Vec<usize> = base.iter().enumerate().filter(|(_, c)| &c.ty == b"fdAT").map(|(i, _)| i).collect();
